@@ -86,8 +86,12 @@ CLAIMS = {
              "bytes of the concatenated payloads = message; 255 packets <=> 1785 bytes); an accepted long message is announced by one RTS/BAM "
              "with exact size, packet count, window limit and PGN and its data frames are the TP.DT frames of consecutive packets of the "
              "payload; the responder, fed RTS then those frames in order at arbitrary times, delivers the byte-identical payload exactly once at "
-             "the last packet and frees the pair (induction over the packets); the end-of-message ack is the only other PDU reported.  Partial: "
-             "the composition over 2-4 stacks and all bus schedules (incl. latency 0 re-entrancy) is not one theorem: it is covered by the "
+             "the last packet and frees the pair (induction over the packets); the end-of-message ack is the only other PDU reported; BROADCAST END "
+             "TO END (c01_bam_end_to_end): an accepted 9..1785-byte broadcast served by n due passes puts exactly BAM + n TP.DT frames on the bus "
+             "and deletes the record, and ANY node receiving those frames through notify() (any prior state, filter, times, configuration) "
+             "delivers PGN/source/255/byte-identical payload exactly once and keeps no record (two-party composition through the wire bytes: "
+             "identifier parse, BAM decode, dispatch, reassembly).  Partial: "
+             "the RTS/CTS composition over 2-4 stacks and all bus schedules (incl. latency 0 re-entrancy) is not one theorem: it is covered by the "
              "lock-step correspondence (atomic handlers) and the network oracle on real stacks.",
         note="Proved for the code as repaired by fix D23 (BAM PGN of a PDU1 group). Tie: regenerated leaves + lock-step correspondence on "
              "recorded multi-node scripts; oracle: 2-4 real stacks, concurrent transfers both directions, windows 1..255, latencies incl. 0.",
